@@ -128,6 +128,10 @@ def run(ctx: Ctx) -> None:
                             return True
                         if r[0] == "self" and r[1] in may:
                             return True
+                    # taking an element off a local container is progress too: the container is finite (an empty one raises)
+                    for c in x.calls():
+                        if isinstance(c.func, ast.Attribute) and c.func.attr in ("pop", "popleft") and not c.args and isinstance(c.func.value, ast.Name) and c.func.value.id != "self":
+                            return True
                     return False
                 ok = progress(n) or not cfg.paths_avoiding(n, n, progress)
                 ctx.ob("R7.3", f"parser:CxxParser.{fname}|while {short(n.loop.test, 40)} #{_loop_index(fn, n.loop)}", ok,
